@@ -225,6 +225,15 @@ func (c *Ctx) frontJobs(maxN int) []Job {
 		Bounds:         "every pair of the simulation relation between the shipped automaton and the reference LR(1) automaton of the spec, every terminal and end of input (symbolic), every nonterminal (symbolic): unbounded in the length of the input",
 		RequiredCovers: []string{"end"},
 	})
+	for n := 0; n <= 2 && n <= maxN; n++ {
+		jobs = append(jobs, Job{
+			Name:           fmt.Sprintf("front-end lockstep used-parser N=%d", n),
+			Target:         t,
+			Run:            SymRun{Harness: "VerifC15Lockstep", Params: map[string]int{"N": n, "STEPS": 12*(n+1) + 8, "STALE": 2}, LoopBound: 64, LoopBounds: map[string]int{"Parse": 12*(n+1) + 16, "verifRefRun": 12*(n+1) + 16}, ForkFuncs: []string{"Parse", "VerifC15Lockstep", "verifRefRun", "Error", "newError", "popNonRecoveryStates", "firstRecoveryState"}, InitExtra: []string{RepoMod + "/internal/frontend/token"}},
+			Bounds:         fmt.Sprintf("a parser object whose stack holds 2 arbitrary stale states (left by an earlier input), every sequence of %d front-end tokens", n),
+			RequiredCovers: []string{"end"},
+		})
+	}
 	for n := 0; n <= maxN; n++ {
 		jobs = append(jobs, Job{
 			Name:           fmt.Sprintf("front-end lockstep N=%d", n),
